@@ -116,7 +116,7 @@ def gen(tier, rng, scale):
         files = []
         for _ in range(nfiles):
             if rng.chance(1, 2):
-                files.append(["fx", rng.choice(ELF_FIXTURES), rng.choice(["", "", "renamed.so", "lib with space.so", "moved:libmoved%d.so" % len(files)])])
+                files.append(["fx", rng.choice(ELF_FIXTURES), rng.choice(["", "", "renamed.so", "lib with space.so", "moved:libmoved%d.so" % len(files), "lib\u00e9\u4e2d.so", 'lib"q".so', "lib\\b.so", "moved:lib'x%d.so" % len(files)])])
             else:
                 files.append(["gen", rng.next(), rng.choice(["", "libgen.so.1", "a.out", "moved:genmoved%d.so" % len(files)])])
         cases.append({"kind": "e2e", "gz": rng.chance(1, 2), "seed": rng.next(), "items": files})
